@@ -125,6 +125,25 @@ impl<'a> Cast<Val<'a>> for OrderedFloat<f64> { fn cast(self) -> Val<'a> { if sel
 
 impl<'a> Cast<Val<'a>> for usize { fn cast(self) -> Val<'a> { Val::Integer(self as i64) } }
 
+/// Conversion of a slot of a nullable column whose presence bit is set. NULL is carried by the presence bit there, so
+/// the in-band NULL marker of fused columns does not apply: a present i64::MAX (e.g. the exact result of `c + 1`) is
+/// the integer, not NULL.
+pub trait CastPresent<'a>: Cast<Val<'a>> + Sized {
+    fn cast_present(self) -> Val<'a> { self.cast() }
+}
+
+impl<'a> CastPresent<'a> for u8 {}
+
+impl<'a> CastPresent<'a> for u16 {}
+
+impl<'a> CastPresent<'a> for u32 {}
+
+impl<'a> CastPresent<'a> for i64 { fn cast_present(self) -> Val<'a> { Val::Integer(self) } }
+
+impl<'a> CastPresent<'a> for OrderedFloat<f64> {}
+
+impl<'a> CastPresent<'a> for &'a str {}
+
 impl<'a> Cast<u8> for Val<'a> {
     fn cast(self) -> u8 {
         match self {
